@@ -1,7 +1,7 @@
 """C05 - ephemeral listeners never hold up or alter the synchronized stream (E1, TIMELY(100) and ANY)."""
 
 from mc import common, explore
-from . import topo
+from . import topo, e2part, e2cfgs
 
 BASES = ['fifo', 'asc', 'desc', 'lifo']
 
@@ -64,6 +64,31 @@ def run(rep):
     if not quick:
         explore.explore(rep, 'core-d2', [s for s in fam if '/slow250/' in s['name'] or 'ephemeral-rejoin' in s['name']], 2, ['fifo'],
                         'checks.oracles:oracle_c05', budget_s=1500)
+
+    # E2: the synchronized part of the system reaches exactly the same observable states with and without a listener
+    from mc import e2
+
+    res = e2part.run_e2(rep, 'C05')
+
+    if res:
+        K    = 2 if quick else 3
+        bare = e2cfgs.one(K, name=f'e2-listener-free-K{K}')
+        ref  = e2.search(rep, f'e2/{bare["name"]}', bare, 'mc.e2:oracle_protocol', budget_s=600)[3]
+
+        for name, r in res.items():
+            if f'-K{K}' not in name:
+                continue
+
+            with_l = {(pubs, cons[:1]) for pubs, cons in r[3]}
+            without = {(pubs, cons[:1]) for pubs, cons in ref}
+
+            if with_l != without:
+                extra, missing = sorted(with_l - without)[:3], sorted(without - with_l)[:3]
+                rep.violation(f'C05/e2-sync-states-differ/{name}', f'[E2 {name}] observable states (publisher progress, synchronized deliveries) '
+                              f'differ from the listener-free system: only with listener {extra}, only without {missing}',
+                              {'kind': 'e2-projection', 'cfg': name})
+
+            rep.part(f'e2-projection/{name}', with_listener=len(with_l), listener_free=len(without))
 
     rep.set('traces_validated_against_impl', rep.coverage.get('evaluations', 0))
     rep.set('distinct_nontrivial', rep.coverage.get('distinct_outcomes', 0))
